@@ -238,7 +238,9 @@ def push_checks(run_out):
                 if d1["lease"] == d2["lease"] or not (d1["c"] < d2["r"] and d2["c"] < d1["r"]):
                     continue
                 a, b = issued[d1["lease"]], issued[d2["lease"]]
-                if any(mid in [x.strip() for x in c.get("ids") or []] and c["r"] > a[0] and c["c"] < b[1] for c in cancels):
+                # which of the two leases came first is not decided by the call stamps when the two dispatcher dequeues overlapped (a call that
+                # started earlier may have been served later): a cancel excuses the pair when it fits between the two hand-outs in either order
+                if any(mid in [x.strip() for x in c.get("ids") or []] and ((c["r"] > a[0] and c["c"] < b[1]) or (c["r"] > b[0] and c["c"] < a[1])) for c in cancels):
                     continue
                 probs.append(("push:concurrent-delivery", "message %s was being delivered by two dispatcher workers at once "
                               "(Deliver stamps %d..%d under lease %s and %d..%d under lease %s) and no operator cancel ended the first lease"
